@@ -696,6 +696,9 @@ class KEval:
                     # arithmetic on a freshly allocated constant array (-1 * np.ones(n), 0 + 0j * np.zeros(n)) is still a fresh array
                     iv = self.binop(e.op, x.init[1], self.scalar(y)) if left else self.binop(e.op, self.scalar(y), x.init[1])
                     r = Ref(self.fresh("<alloc>"), (), True, x.shape, ("expr", iv), origin=None)
+                    for a_ in ("shape_like", "like"):
+                        if hasattr(x, a_):
+                            setattr(r, a_, getattr(x, a_))
                     self._allocs[r.name] = r
                     return r
             return self.binop(e.op, self.scalar(a), self.scalar(b))
@@ -842,6 +845,7 @@ class KEval:
                     shp = None
                     r = Ref(hint or self.fresh("<alloc>"), (), True, None, init)
                     r.shape_like = shape.ref
+                    self._allocs[r.name] = r
                     return r
                 else:
                     shp = None
